@@ -214,15 +214,23 @@ def run(tier, seed, t0, only=None):
                                   backend=be, timeout=6000,
                                   name=f'{be}:rabin:{shape}:moore={moore}:plus_one={plus_one}'
                                        + ('' if part is None else f':state{part}')))
-    dshapes = ['B11a', 'S11', 'S11h2', 'S11g2', 'B02', 'T11b'] if tier == 'quick' else ['B11a', 'B11b', 'B11c21', 'B11c12', 'S11', 'S11h2', 'S11g2', 'B02', 'T11b', 'T11']
+    dshapes = ['B11a', 'S11', 'S11h2', 'S11g2', 'B02', 'T11b'] if tier == 'quick' else ['B11a', 'B11b', 'S11', 'S11h2', 'S11g2', 'B02', 'T11b', 'T11']
     for shape in dshapes:
         for moore, plus_one in MODES:
             tasks.append(dict(mod='vlib.props.c04', fn='duality', kw=dict(shape=shape, moore=moore, plus_one=plus_one),
                               timeout=6000, name=f'cudd:duality:{shape}:moore={moore}:plus_one={plus_one}'))
-    for shape in (['S11'] if tier == 'quick' else ['S11', 'B11a', 'B11c12']):
+    for shape in (['S11'] if tier == 'quick' else ['S11', 'B11a', 'S11h2']):
         for moore, plus_one in MODES:
             tasks.append(dict(mod='vlib.props.c04', fn='trivial_set', kw=dict(shape=shape, moore=moore, plus_one=plus_one),
                               timeout=6000, name=f'cudd:trivial:{shape}:moore={moore}:plus_one={plus_one}'))
+    nmem = 48 if tier == 'quick' else 600
+    for shape in ('S11g2', 'S11g3', 'S11g2h2', 'B11a'):
+        for moore, plus_one in MODES:
+            sds = [seed * 100000 + i for i in range(nmem)]
+            for i in range(0, nmem, 48):
+                tasks.append(dict(mod='vlib.props.c01', fn='member_instances',
+                                  kw=dict(shape=shape, moore=moore, plus_one=plus_one, objective='rabin', seeds=sds[i:i + 48]),
+                                  timeout=3000, name=f'cudd:rabin:members:{shape}:moore={moore}:plus_one={plus_one}[{i}]'))
     tasks.append(dict(mod='vlib.props.c01', fn='validate_reference', kw=dict(seed=seed * 100 + 7, n=10 if tier == 'quick' else 100),
                       timeout=3000, name='xref-validation'))
     if only:
